@@ -739,8 +739,11 @@ func (p *Prog) LinearDischarge(f *Fn, op ast.Node) (proved bool, why string, ass
 			}
 			goals = append(goals, hi.add(lo, -1))
 			names = append(names, "low ≤ high")
+		case *ast.BinaryExpr: // shift: the count must not be negative
+			goals = append(goals, a.eval(x.Y, st))
+			names = append(names, "shift count ≥ 0")
 		default:
-			fail = "not an index or slice expression"
+			fail = "not an index, slice or shift expression"
 			return false
 		}
 		for gi, gl := range goals {
